@@ -21,7 +21,7 @@ Section C02.
   (* offset pointing outside the span: IndexError, nothing changes (both spellings of t) *)
   Theorem C02_offset_out_of_span_rejected d o t s p :
     min_iter o <= max_iter o ->
-    py_pos (length (status s)) t = Some p ->
+    py_pos (length (status s)) t = Some p -> feasible d (length (status s)) p = true ->
     offset o <> 0 ->
     (Z.of_nat p + offset o < 0 \/ Z.of_nat (length (status s)) <= Z.of_nat p + offset o) ->
     solve_t_M d o t s = (s, Raise IndexError).
@@ -29,7 +29,7 @@ Section C02.
 
   (* in-span offset: identical to the offset-free solve after copying the endogenous values of t+offset into t *)
   Theorem C02_offset_seeds d o t s p :
-    py_pos (length (status s)) t = Some p ->
+    py_pos (length (status s)) t = Some p -> feasible d (length (status s)) p = true ->
     offset o <> 0 ->
     0 <= Z.of_nat p + offset o < Z.of_nat (length (status s)) ->
     solve_t_M d o t s =
@@ -42,7 +42,7 @@ Section C02.
      check variable moved by strictly less than tol; '.', iterations = k, True; exactly k passes; hooks once each *)
   Theorem C02_converges_at_least_k d o t s p v1 k0 :
     min_iter o <= max_iter o -> 0 <= max_iter o ->
-    py_pos (length (status s)) t = Some p -> offset o = 0 ->
+    py_pos (length (status s)) t = Some p -> feasible d (length (status s)) p = true -> offset o = 0 ->
     let c0 := get_check num zero d (vals_of s) p in
     let N := Z.to_nat (max_iter o) in
     before t (errors o) (catch_first o) 0%nat (vals_of s) = (v1, None) ->
@@ -63,7 +63,7 @@ Section C02.
   (* finite regime, no pass converges: 'F', iterations = max_iter, False / NonConvergenceError iff failures='raise' *)
   Theorem C02_fails_when_no_k d o t s p v1 :
     min_iter o <= max_iter o -> 0 <= max_iter o ->
-    py_pos (length (status s)) t = Some p -> offset o = 0 ->
+    py_pos (length (status s)) t = Some p -> feasible d (length (status s)) p = true -> offset o = 0 ->
     let c0 := get_check num zero d (vals_of s) p in
     let N := Z.to_nat (max_iter o) in
     before t (errors o) (catch_first o) 0%nat (vals_of s) = (v1, None) ->
@@ -82,7 +82,7 @@ Section C02.
   (* the complete equation, from which the two readings above follow *)
   Theorem C02_finite_spec d o t s p v1 :
     min_iter o <= max_iter o -> 0 <= max_iter o ->
-    py_pos (length (status s)) t = Some p ->
+    py_pos (length (status s)) t = Some p -> feasible d (length (status s)) p = true ->
     offset o = 0 ->
     let c0 := get_check num zero d (vals_of s) p in
     let N := Z.to_nat (max_iter o) in
@@ -110,7 +110,7 @@ Section C02.
   (* max_iter = 0: no pass is run, status F, iterations = max_iter = 0 (holds since the fix: commit for finding #1) *)
   Theorem C02_maxiter0 d o t s p v1 :
     min_iter o <= max_iter o -> max_iter o = 0 ->
-    py_pos (length (status s)) t = Some p -> offset o = 0 ->
+    py_pos (length (status s)) t = Some p -> feasible d (length (status s)) p = true -> offset o = 0 ->
     all_finite num isfin (get_check num zero d (vals_of s) p) = true ->
     before t (errors o) (catch_first o) 0%nat (vals_of s) = (v1, None) ->
     solve_t_M d o t s =
